@@ -659,7 +659,7 @@ func TestEndToEnd(t *testing.T) {
 	expect(t, "moves", tableDump(db, "moves", "seq", "transactions_seq", "accounts_seq", "account_address", "amount", "is_source", "effective_date", "post_commit_volumes", "post_commit_effective_volumes"),
 		`1 | 1 | 1 | world | 5 | true | 2023-01-03T00:00:00.000000 | volumes(0,5) | volumes(0,5)`+"\n"+
 			`2 | 1 | 2 | a | 5 | false | 2023-01-03T00:00:00.000000 | volumes(5,0) | volumes(5,3)`+"\n"+
-			`3 | 2 | 2 | a | 3 | true | 2023-01-02T00:00:00.000000 | volumes(5,3) | volumes(NULL,NULL)`+"\n"+
+			`3 | 2 | 2 | a | 3 | true | 2023-01-02T00:00:00.000000 | volumes(5,3) | volumes(0,3)`+"\n"+
 			`4 | 2 | 5 | b | 3 | false | 2023-01-02T00:00:00.000000 | volumes(3,0) | volumes(3,0)`)
 	expect(t, "logs", tableDump(db, "logs", "seq", "id", "type", "hash", "date", "idempotency_key"),
 		"1 | 0 | NEW_TRANSACTION | 00 | 2023-01-01T10:00:00.000000 | \n2 | 1 | NEW_TRANSACTION | 01 | 2023-01-01T10:00:01.000000 | ik\n3 | 2 | SET_METADATA | 02 | 2023-01-01T10:00:02.500000 | ")
